@@ -4,6 +4,7 @@ tests can tell: build the transformed tree (outside /repo and /verif), copy the 
 there and compare the set of passing tests with the same run on an untransformed copy.  Development aid (runs fairlearn's
 tests, so it is not part of any registered check); writes sa/selftest/TRANSFORMS_VERIFIED.json."""
 import json
+import re
 import os
 import shutil
 import subprocess
@@ -27,7 +28,7 @@ def run(tree):
     ok = set()
     for tc in ET.parse(jf).iter("testcase"):
         if not any(ch.tag in ("failure", "error", "skipped") for ch in tc):
-            ok.add(tc.get("classname") + "::" + tc.get("name"))
+            ok.add(re.sub(r"0x[0-9a-f]+", "0x", tc.get("classname") + "::" + tc.get("name")))
     return ok
 
 
